@@ -363,7 +363,9 @@ class Gen:
             elif r < 0.9:
                 v = rng.randint(-2**31, 2**31 - 1)
             else:
-                x = rng.choice([0.0, 1.5, 2.75, 100.0, 7.0])
+                # out-of-range float -> integer conversion is undefined (6.3.1.4): stay inside the field
+                x = rng.choice([0.0] + ([1.5] if bits >= 2 else []) + ([2.75, 7.0] if bits >= 4 else []) +
+                               ([100.0] if bits >= 8 else []))
                 return E(repr(x), "n%d.%d.%d.%d" % (int(x), x != 0, f32bits(x), f64bits(x)), ["int<-flt"])
             v = max(-2**63, min(v, 2**64 - 1))
             if t.size == 1 and bf_width is None and 32 <= v < 127 and v not in (39, 92) and rng.random() < 0.5:
@@ -937,7 +939,14 @@ class Runner:
         if r.returncode != 0:
             o = objs[0]
             full, spec, _ = exp[(o.name, o.name)]
-            if full.startswith("ok") or spec.startswith("ok"):
+            self.counts["objects"] += 1
+            if spec.startswith("ok") and int(spec.split()[2]) > 0 and full == "emit-error" and r.returncode < 0:
+                # several members of a union initialised: the list is not laminar, emitdata's own
+                # assert fires (upstream todo/38, the XXX comment in emitdata)
+                self.counts["known_union"] += 1
+                ck.report({"kind": "union-assert", "program": text, "target": targ, "stderr": r.stderr[-300:],
+                           "what": "initialising several union members aborts on emitdata's assert"}, fid=FID_UNION)
+            elif full.startswith("ok") or spec.startswith("ok"):
                 ck.violation({"kind": "rejected-valid-initialiser", "program": text, "target": targ,
                               "stderr": r.stderr[-600:], "returncode": r.returncode, "model": full[:200], "spec": spec[:200],
                               "what": "cproc-qbe rejects (or crashes on) an initialiser that the model/spec accept"})
